@@ -280,3 +280,22 @@ Lemma rt_context_independent_if_cast : shl_fast_casts_unsigned_subint = true -> 
 Proof.
   intros F o1 o2 t1 t2 t3 a b c k1 H1 H2 _ Hc Ha _ _. apply nested_eq_gen; try assumption. intros; exact F.
 Qed.
+
+(* ---- the fast path of a compile-time count computes what the helper computes (so the theorems about
+   rt_bin - modularity, fold = run time - speak about constant counts as well): exhaustively for the
+   8-bit types, all three shifts, every value and every count from -2 to bits + 1 *)
+Definition rres_eqb (x y : rres) : bool :=
+  match x, y with
+  | Rval t v, Rval t' v' => ity_eqb t t' && (v =? v')
+  | Rbool b, Rbool b' => Bool.eqb b b'
+  | Rstop m, Rstop m' => m =? m'
+  | Rundef, Rundef => true
+  | _, _ => false
+  end.
+Definition zrange (lo n : Z) : list Z := map (fun i => lo + Z.of_nat i) (seq 0 (Z.to_nat n)).
+Definition fast_eq_helper_on (t : ity) : bool :=
+  forallb (fun o => forallb (fun a => forallb (fun b =>
+     rres_eqb (rt_bin_k o t I64 a b true) (rt_bin o t I64 a b)) (zrange (-2) (bits t + 4))) (zrange (tmin t) (tmod t)))
+    [Bshl; Bshr; Basr].
+Lemma fast_eq_helper_8 : fast_eq_helper_on I8 = true /\ fast_eq_helper_on U8 = true.
+Proof. split; vm_compute; reflexivity. Qed.
